@@ -18,14 +18,42 @@
    vm_compute) and proved sound once (CsvFacts.sub_closed_sound, XmlValid.nonnull_sound).
    Proofs in Formal/XmlFacts.v + Formal/XmlValid.v, models in Formal/Xml.v.
 
+   PROVED PART 3 (XML namespace and attribute rules, for XML_GRAMMAR_WITH_NAMESPACE_PREFIXES): the three
+   remaining shipped XML constraints are transcribed (source texts, parsed formulas, and for every
+   match expression the tree prefixes BindExpression.to_tree_prefix computes; all diffed against
+   /repo on every run) and modelled as evaluate decides them (XmlNs.xml_ns_satb = tag constraint &&
+   attribute constraint = XML_NAMESPACE_CONSTRAINT, XmlNs.xml_noredef_satb; inside = path prefix).
+   Their documented meaning (XmlNsSpec.xml_ns_sat, xml_noredef_sat: quantifiers over positions,
+   declarative tree-prefix relation mprefix, some alternative of the match expression matches) is
+   proved equivalent to the model (C21_xml_ns_decision, C21_xml_noredef_decision).
+   FULL (implication): every closed derivation tree satisfying the namespace constraint has a text
+   on which the independent reader finds every element / attribute prefix declared by an
+   xmlns:prefix attribute of the same tag or of an element still open, and no xmlns:xmlns
+   (C21_xml_ns_bound); every closed derivation tree satisfying the no-redefinition constraint has a
+   text in which no tag carries two attributes with the same name (C21_xml_attrs_unique).  The reader
+   xml_events returns exactly the tags of the tree (C21_xml_events_exact).
+   The converse of C21_xml_ns_bound is FALSE and refuted (C21_xml_ns_converse_refuted): the shipped
+   constraint is strictly STRONGER than prefix binding -- outer_tag only matches elements with a start
+   and an end tag, so <p:a xmlns:p=.../> needs the declaration on an ancestor.
+   REFUTED (C21_xml_ns_reserved_refuted): the shipped constraints are WEAKER than namespace
+   well-formedness as expat checks it -- they do not contain the rule Reserved Prefixes and Namespace
+   Names: the tree of <a xmlns:xml=QuQ>t</a> satisfies all four shipped XML constraints and expat
+   rejects its text.  (Also outside the theorems: uniqueness of attributes by EXPANDED name, i.e.
+   two prefixes bound to one namespace name; reproduced on /repo, recorded as known findings.)
+   PARTIAL in this sense: C21_xml_ns_bound / C21_xml_attrs_unique are the theorems for the notions
+   prefix-binding and attribute-uniqueness by qualified name; no theorem says that the text passes
+   expat's full namespace processing, and the two refutation witnesses show that none can.
+   Proofs in Formal/XmlNsFacts.v, XmlNsReader.v, XmlNsValid.v, XmlAttrValid.v, XmlNsSpec.v; model
+   in Formal/XmlNs.v; concrete trees in Formal/XmlNsExamples.v.
+
    STILL NOT PROVED (search only, see harness/c21.py): the solver side (that ISLaSolver outputs are
-   derivation trees of the grammar satisfying the constraint: that is C01); for XML the two
-   namespace constraints and the attribute-uniqueness constraint (xml.etree is the oracle there);
-   the reST and simple-TAR formalizations.  The full statement of C21 for those reads
-     forall t, solver_output XML/REST/TAR t -> independent_check (yield t)
+   derivation trees of the grammar satisfying the constraint: that is C01); the reST and simple-TAR
+   formalizations.  The full statement of C21 for those reads
+     forall t, solver_output REST/TAR t -> independent_check (yield t)
    and has no Gallina counterpart here (no executable model of docutils / of the Python closures
    that implement the TAR predicates). *)
 From ISLA Require Import Grammar GrammarFacts Csv CsvFacts Xml XmlFacts XmlValid.
+From ISLA Require Import XmlNs XmlNsFacts XmlNsReader XmlNsValid XmlAttrValid XmlNsExamples XmlNsSpec.
 
 (* the constraint, as decided on closed trees the way evaluate() decides it, means what
    csv_colno_property documents: some n >= 1 equals the number of <raw-field> nodes of every
@@ -204,3 +232,99 @@ Example C21_xml_reader_rejects :
   xml_balanced [60;97;47;62;60;98;62;120;60;47;98;62]%N = true.
 Proof. exact xml_balanced_rejects. Qed.
 Print Assumptions C21_xml_reader_rejects.
+
+(* ========================================================================= *)
+(* XML, part 3: namespace constraint and attribute no-redefinition constraint *)
+(* ========================================================================= *)
+
+(* how evaluate decides the namespace constraint (tag & attribute part) = its documented meaning *)
+Theorem C21_xml_ns_decision : forall t, xml_ns_satb t = true <-> xml_ns_sat t.
+Proof. exact xml_ns_satb_spec. Qed.
+Print Assumptions C21_xml_ns_decision.
+
+Theorem C21_xml_noredef_decision : forall t, xml_noredef_satb t = true <-> xml_noredef_sat t.
+Proof. exact xml_noredef_satb_spec. Qed.
+Print Assumptions C21_xml_noredef_decision.
+
+(* language.match on a tree prefix = the declarative prefix relation *)
+Theorem C21_xml_prefix_match_meaning : forall m t, pmatch m t = true <-> mprefix m t.
+Proof. exact pmatch_spec. Qed.
+Print Assumptions C21_xml_prefix_match_meaning.
+
+(* the reader returns exactly the tags of the derivation tree: names = texts of the <id> nodes,
+   attributes = (name, value) of the attribute leaves, in document order *)
+Theorem C21_xml_events_exact : forall t,
+  wf_tree XMLNS t -> is_openT t = false -> lbl t = X_start ->
+  exists x, kids t = [x] /\ lbl x = X_tree /\ wf_tree XMLNS x /\ is_openT x = false /\
+            xml_events (yield t) = Some (tree_events x).
+Proof. exact xml_events_exact. Qed.
+Print Assumptions C21_xml_events_exact.
+
+(* MAIN (namespaces): grammar + XML_NAMESPACE_CONSTRAINT imply prefix binding on the text *)
+Theorem C21_xml_ns_bound : forall t,
+  wf_tree XMLNS t -> is_openT t = false -> lbl t = X_start -> xml_ns_sat t ->
+  xml_ns_bound (yield t) = true.
+Proof. exact xml_ns_valid. Qed.
+Print Assumptions C21_xml_ns_bound.
+
+(* MAIN (attributes): grammar + xml_no_attr_redef_constraint imply attribute uniqueness per tag *)
+Theorem C21_xml_attrs_unique : forall t,
+  wf_tree XMLNS t -> is_openT t = false -> lbl t = X_start -> xml_noredef_sat t ->
+  xml_attrs_unique (yield t) = true.
+Proof. exact xml_attrs_valid. Qed.
+Print Assumptions C21_xml_attrs_unique.
+
+(* boolean instances evaluated by the correspondence check on every generated tree *)
+Theorem C21_xml_ns_bound_bool : forall t,
+  wf_treeb XMLNS t = true -> closedb t = true -> lbl t = X_start -> xml_ns_satb t = true ->
+  xml_ns_bound (yield t) = true.
+Proof. exact xml_ns_valid_bool. Qed.
+Print Assumptions C21_xml_ns_bound_bool.
+
+Theorem C21_xml_attrs_unique_bool : forall t,
+  wf_treeb XMLNS t = true -> closedb t = true -> lbl t = X_start -> xml_noredef_satb t = true ->
+  xml_attrs_unique (yield t) = true.
+Proof. exact xml_attrs_valid_bool. Qed.
+Print Assumptions C21_xml_attrs_unique_bool.
+
+(* non-vacuity: the tree of  <r xmlns:p=QuQ><p:a p:x=Q1Q y=Q2Q/><q y=Q2Q>t</q></r>  satisfies the
+   premises of both theorems *)
+Theorem C21_xml_ns_premises_satisfiable :
+  wf_tree XMLNS ex_ns_good /\ is_openT ex_ns_good = false /\ lbl ex_ns_good = X_start /\
+  xml_ns_sat ex_ns_good /\ xml_noredef_sat ex_ns_good.
+Proof. exact ex_ns_good_sat. Qed.
+Print Assumptions C21_xml_ns_premises_satisfiable.
+
+(* FULL STATEMENT "prefix binding <-> namespace constraint" is FALSE (the constraint is stronger):
+     forall t, wf_tree XMLNS t -> closed t -> root <start> -> xml_ns_bound (yield t) = true -> xml_ns_sat t *)
+Theorem C21_xml_ns_converse_refuted :
+  exists t, wf_tree XMLNS t /\ is_openT t = false /\ lbl t = X_start /\
+            xml_ns_bound (yield t) = true /\ ~ xml_ns_sat t.
+Proof. exact xml_ns_converse_refuted. Qed.
+Print Assumptions C21_xml_ns_converse_refuted.
+
+(* FULL STATEMENT "all shipped XML constraints imply namespace well-formedness incl. the reserved
+   names rule" is FALSE:
+     forall t, ... -> xml_wf_sat t -> xml_ns_sat t -> xml_noredef_sat t -> xml_ns_reserved (yield t) = true
+   What holds instead is C21_xml_ns_bound + C21_xml_attrs_unique + C21_xml_valid_ns; missing: any rule
+   about the prefix xml and the two reserved namespace names, and attribute uniqueness by expanded name. *)
+Theorem C21_xml_ns_reserved_refuted :
+  exists t, wf_tree XMLNS t /\ is_openT t = false /\ lbl t = X_start /\
+            xml_wf_sat t /\ xml_ns_sat t /\ xml_noredef_sat t /\
+            xml_ns_bound (yield t) = true /\ xml_ns_reserved (yield t) = false.
+Proof. exact xml_ns_reserved_refuted. Qed.
+Print Assumptions C21_xml_ns_reserved_refuted.
+
+(* further witnesses: a declaration on a DESCENDANT is rejected by constraint and reader (inside is
+   one-directional); the attribute constraint is needed; the reader is not constant *)
+Theorem C21_xml_ns_descendant_rejected :
+  wf_treeb XMLNS ex_ns_descendant = true /\ xml_ns_satb ex_ns_descendant = false /\
+  xml_ns_bound (yield ex_ns_descendant) = false.
+Proof. exact ex_ns_descendant_facts. Qed.
+Print Assumptions C21_xml_ns_descendant_rejected.
+
+Theorem C21_xml_attr_constraint_needed :
+  wf_treeb XMLNS ex_attr_dup = true /\ xml_noredef_satb ex_attr_dup = false /\
+  xml_attrs_unique (yield ex_attr_dup) = false.
+Proof. exact ex_attr_dup_facts. Qed.
+Print Assumptions C21_xml_attr_constraint_needed.
